@@ -233,7 +233,32 @@ def r6_only_found_packs_are_remembered(cx):
           "the only interior-mutable state of Container is the table of found packs (fields with interior mutability: %s)" % mut)
 
 
+def r7_missing_survives_every_conversion(cx):
+    """'reported as missing': `MayMissPack` values go through conversions on their way to the caller (`map`, `as_ref`, the
+    two `transpose` that the documented idiom `get_bytes(..)?.and_then(|m| m.transpose())` relies on). Each of them, given
+    the MISSING variant, builds a MISSING variant again -- only `get` and `unwrap` are allowed to drop it."""
+    F = cx.F
+    n = 0
+    for f in F.live_fns:
+        if "blocks" not in f or f.get("kind") == "closure" or not re.search(r"reader::missing::MayMissPack", f.get("impl_self") or ""):
+            continue
+        if f.get("item_name") in ("get", "unwrap") or f.get("impl_trait"):
+            continue
+        b = F.deep_body(f, only=r"reader::missing::")
+        en = F.enum("reader::missing::MayMissPack")
+        d = next(v["discr"] for v in en["variants"] if v["name"] == "MISSING")
+        r, _ = b.explore(assume_discr={r"missing::MayMissPack<": d}, avoid=b.panic_blocks())
+        keeps = any(st["k"] == "assign" and st["rv"]["k"] == "agg" and (st["rv"].get("adt") or "").endswith("missing::MayMissPack") and st["rv"].get("variant") == "MISSING"
+                    for i in r for st in b.blocks[i]["s"])
+        n += 1
+        cx.ob("R7", "R7/MayMissPack.%s@%s/missing-stays-missing" % (f.get("item_name"), re.sub(r".*MayMissPack", "", f.get("impl_self") or "")[:40]), keeps, f,
+              "given MISSING(info), %s builds a MISSING again" % f.get("item_name"))
+    if n < 4:
+        raise AnchorLost("conversions of MayMissPack: %d" % n)
+
+
 RULES = [
+    ("R7", r7_missing_survives_every_conversion, 4),
     ("R6", r6_only_found_packs_are_remembered, 1),
     ("R1", r1_three_way, 8),
     ("R2", r2_absent_is_none, 2),
